@@ -10,31 +10,47 @@ struct Shard {
     l: L,
     lo: u64,
     hi: u64,
+    /// extra structured ranks (instead of the range) when non-empty
+    list: Vec<u64>,
 }
 
 pub fn run(tier: Tier) -> i32 {
     let ctx = Ctx::new("C04", tier);
-    let cap = tier.pick(20_000u64, 1_000_000);
-    let chunk = tier.pick(2_500u64, 25_000);
+    let cap = tier.pick(100_000u64, 1_000_000);
+    let chunk = tier.pick(5_000u64, 25_000);
     let mut shards = vec![];
     for l in langs::ALL {
         let max = ordspell::max_rank(l).min(cap);
         let mut lo = 1;
         while lo <= max {
             let hi = (lo + chunk).min(max + 1);
-            shards.push(Shard { l, lo, hi });
+            shards.push(Shard { l, lo, hi, list: vec![] });
             lo = hi;
         }
         // the top of the supported range is always included
         if ordspell::max_rank(l) > cap {
-            shards.push(Shard { l, lo: ordspell::max_rank(l), hi: ordspell::max_rank(l) + 1 });
+            shards.push(Shard { l, lo: ordspell::max_rank(l), hi: ordspell::max_rank(l) + 1, list: vec![] });
+            // structured ranks above the dense range: thousands group x units group over the class set
+            let mut list = vec![];
+            for a in crate::checks::c01::G_T {
+                for b in crate::checks::c01::G_Q {
+                    let n = a as u64 * 1000 + b as u64;
+                    if n > cap && n <= ordspell::max_rank(l) {
+                        list.push(n);
+                    }
+                }
+            }
+            for part in list.chunks(80) {
+                shards.push(Shard { l, lo: 0, hi: 0, list: part.to_vec() });
+            }
         }
     }
     let mut acc = par_shards(shards, |sh, acc| {
         let l = sh.l;
         let lang = l.facade();
         let axes = ordspell::ord_axes(l);
-        for n in sh.lo..sh.hi {
+        let ranks: Vec<u64> = if sh.list.is_empty() { (sh.lo..sh.hi).collect() } else { sh.list.clone() };
+        for n in ranks {
             let mut seen_texts: Vec<String> = vec![];
             for (_, v) in &axes {
                 for f in ordspell::ord_forms(l, n, *v) {
@@ -109,7 +125,7 @@ pub fn run(tier: Tier) -> i32 {
     let cov = json!({
         "exhaustive": true,
         "rule": "every rank n in the range x every inflection x every ordinal spelling variant (distinct renderings only), through validator, scanner (threshold 0, inside a sentence) and occurrence fields",
-        "bounds": {"ranks": format!("1..={cap} (es, pt: 1..=1999) plus the top of the supported range"), "frame": "xyzzy <ordinal> plugh"},
+        "bounds": {"ranks": format!("1..={cap} (es, pt: 1..=1999) plus the top of the supported range and 40 x 16 structured ranks (thousands group x units group) above the dense bound"), "frame": "xyzzy <ordinal> plugh"},
         "inflections": {"en": "sg, pl(th/rd)", "fr": "sg, pl, premier m/f sg/pl", "es": "m/f sg/pl, apocope primer/tercer", "pt": "m/f sg/pl", "it": "m/f sg/pl", "de": "-e -er -en -es -em", "nl": "none"},
     });
     ctx.finish(acc, cov, vec![
